@@ -169,6 +169,9 @@ def domain_ok(node):
 
 
 def check(case, ctx):
+    from yv import fuzzphase
+    if fuzzphase.note_stats(case, ctx):
+        return
     if 'portfolio' in case:
         spec = portfolio.MODELS[case['portfolio']]
     else:
@@ -308,7 +311,7 @@ def enum_tagged(maxn):
     return gen_
 
 
-def phases(tier):
+def _base_phases(tier):
     quick = tier != 'thorough'
     return [
         HypPhase('generated', cases(), 250 if quick else 4000),
@@ -317,3 +320,11 @@ def phases(tier):
                   'models x every class tag of the model, !Unknown, !!map and no tag '
                   'on the root' % (3 if quick else 4)),
     ]
+
+
+def phases(tier):
+    ph = _base_phases(tier)
+    if tier == 'thorough':
+        from yv import fuzzphase
+        ph.append(fuzzphase.struct_fuzz_phase('C03', 15000))
+    return ph
